@@ -1,5 +1,6 @@
 import QipVerif.Lemmas.SimBorn
 import QipVerif.Lemmas.SimWrites
+import QipVerif.Lemmas.SimDm
 /-!
 # C02 — measurement branches obey the Born rule and drive classical control
 
@@ -180,6 +181,52 @@ theorem fires_iff (g : Gate) (cs : List Nat) (v : Nat) (bits : List Int) (hcc : 
   rw [hcc, hccv]
   simp only
   rw [checkCCV_spec cs v bits hv hr hb]
+
+/-! ## Density-matrix mode -/
+
+/-- **dm_eq_mixture_partial.** (Partial: circuits WITHOUT feed-forward — no gate is conditioned on a bit that a
+measurement writes.)  In any space `V` of operators linked to the two backends by `DmLink` (gates and projectors act
+linearly, Born rule `p_o·|φ_o⟩⟨φ_o| = P_o|ψ⟩⟨ψ|P_o`, dephasing `= P₀·P₀ + P₁·P₁`), the density-matrix run of a
+well-formed circuit from `|ψ⟩⟨ψ|` returns, without exception and with probability 1,
+`Σ_r p_r · |φ_r⟩⟨φ_r|` over the records' branches of the state-vector semantics.  With feed-forward this is false
+for the code: `C02_counterexample_dm_feedforward`. -/
+theorem dm_eq_mixture_partial {Q V P : Type} [Semiring P] [AddCommMonoid V] [Module P V]
+    (Bs : Backend Q P) (Bd : Backend V P) (dm : Q → V) (L : DmLink Bs Bd dm) (cfg : Cfg) (c : Circuit)
+    (hc : c.Valid) (reads : Int → Prop) (hff : NoFeedForward c.ops reads) (w : World V P) (q0 : Q)
+    (cb : Option Ref) (hf : Fresh cfg cb) (mr : Option (List Int)) :
+    ∃ w' res, run Bd cfg .dm c w (dm q0) cb mr = (w', .ok res) ∧ res.probs = [1] ∧
+      res.states = [some (((records c.numMeas).map (fun r =>
+        (branchEntry Bs c (initBits c (cb.map w.heap.get)) q0 r).2.1 •
+          dmOpt dm (branchEntry Bs c (initBits c (cb.map w.heap.get)) q0 r).1)).sum)] := by
+  rw [run_fresh Bd cfg .dm c w (dm q0) cb mr hf]
+  have hres := coreRun_dm_eq_mixture Bs Bd dm L cfg c hc reads hff (initBits c (cb.map w.heap.get))
+    (initBits_ok c _) q0 mr w.rng
+  dsimp only
+  generalize coreRun Bd cfg .dm c (initBits c (cb.map w.heap.get)) (dm q0) mr w.rng = ro at hres ⊢
+  obtain ⟨cbf, hmk⟩ : ∃ cbf, mkResult ro (ro.bits.map (fun _ => w.heap.size)) =
+      .ok { states := [some (((records c.numMeas).map (fun r =>
+              (branchEntry Bs c (initBits c (cb.map w.heap.get)) q0 r).2.1 •
+                dmOpt dm (branchEntry Bs c (initBits c (cb.map w.heap.get)) q0 r).1)).sum)],
+            probs := [1], cbits := cbf } := by
+    unfold mkResult; rw [hres]; exact ⟨_, rfl⟩
+  rw [hmk]
+  exact ⟨_, _, rfl, rfl, rfl⟩
+
+-- non-vacuity of the hypothesis: a circuit measuring into bit 0 and conditioning on bit 1 has no feed-forward
+example : NoFeedForward [.meas 0 (some 0), .gate ⟨0, [1], some [1], 1⟩] (fun x => x = 1) := by
+  constructor
+  · intro g cs hg hcc x hx
+    simp only [List.mem_cons, List.mem_nil_iff, or_false] at hg
+    rcases hg with hg | hg
+    · cases hg
+    · cases hg; cases hcc
+      simp only [List.mem_cons, List.mem_nil_iff, or_false] at hx
+      subst hx; exact ⟨rfl, by decide⟩
+  · intro t s hm
+    simp only [List.mem_cons, List.mem_nil_iff, or_false] at hm
+    rcases hm with hm | hm
+    · cases hm; exact ⟨by decide, by decide⟩
+    · cases hm
 
 /-! ## Counter-examples on the unrepaired code (exact backend of the driver, decided by the kernel) -/
 
